@@ -467,6 +467,12 @@ impl ContinuityStore {
         self.sender.subscribe()
     }
 
+    /// Whether the per-continuity seq mutex is free right now (verification harness: enabledness probe).
+    #[cfg(rip_verif)]
+    pub fn verif_seq_free(&self) -> bool {
+        self.next_seq.try_lock().is_ok()
+    }
+
     pub fn replay_events(&self, continuity_id: &str) -> io::Result<Vec<Event>> {
         if let Ok(Some(events)) = self.stream_cache.try_replay(continuity_id) {
             return Ok(events);
@@ -892,13 +898,23 @@ impl ContinuityStore {
         self.event_log
             .append(&event)
             .map_err(|err| format!("append continuity_branched: {err}"))?;
+        #[cfg(rip_verif)]
+        rip_kernel::verif::point("cont.logged");
         self.stream_cache.append_best_effort(&event);
+        #[cfg(rip_verif)]
+        rip_kernel::verif::point("cont.sidecar");
         let _ = self.sender.send(event.clone());
+        #[cfg(rip_verif)]
+        rip_kernel::verif::point("cont.bcast");
 
+        #[cfg(rip_verif)]
+        rip_kernel::verif::point("cont.before_setnext");
         self.next_seq
             .lock()
             .expect("continuity seq mutex")
             .insert(thread_id.clone(), 2);
+        #[cfg(rip_verif)]
+        rip_kernel::verif::point("cont.setnext");
 
         Ok((thread_id, parent_seq, parent_message_id))
     }
@@ -1019,13 +1035,23 @@ impl ContinuityStore {
         self.event_log
             .append(&event)
             .map_err(|err| format!("append continuity_handoff_created: {err}"))?;
+        #[cfg(rip_verif)]
+        rip_kernel::verif::point("cont.logged");
         self.stream_cache.append_best_effort(&event);
+        #[cfg(rip_verif)]
+        rip_kernel::verif::point("cont.sidecar");
         let _ = self.sender.send(event.clone());
+        #[cfg(rip_verif)]
+        rip_kernel::verif::point("cont.bcast");
 
+        #[cfg(rip_verif)]
+        rip_kernel::verif::point("cont.before_setnext");
         self.next_seq
             .lock()
             .expect("continuity seq mutex")
             .insert(thread_id.clone(), 2);
+        #[cfg(rip_verif)]
+        rip_kernel::verif::point("cont.setnext");
 
         Ok((thread_id, from_seq, from_message_id))
     }
@@ -2924,7 +2950,11 @@ impl ContinuityStore {
         origin: String,
         content: String,
     ) -> Result<String, String> {
+        #[cfg(rip_verif)]
+        rip_kernel::verif::point("cont.before_lock");
         let mut next_seq = self.next_seq.lock().expect("continuity seq mutex");
+        #[cfg(rip_verif)]
+        rip_kernel::verif::point("cont.locked");
         let seq = match next_seq.get(continuity_id).cloned() {
             Some(seq) => seq,
             None => {
@@ -2951,11 +2981,19 @@ impl ContinuityStore {
         self.event_log
             .append(&event)
             .map_err(|err| format!("append continuity message: {err}"))?;
+        #[cfg(rip_verif)]
+        rip_kernel::verif::point("cont.logged");
         self.stream_cache.append_best_effort(&event);
+        #[cfg(rip_verif)]
+        rip_kernel::verif::point("cont.sidecar");
         let _ = self.sender.send(event.clone());
+        #[cfg(rip_verif)]
+        rip_kernel::verif::point("cont.bcast");
 
         // Only advance after a successful append to avoid gaps in the truth log.
         next_seq.insert(continuity_id.to_string(), seq + 1);
+        #[cfg(rip_verif)]
+        rip_kernel::verif::point("cont.advanced");
         Ok(message_id)
     }
 
@@ -2967,7 +3005,11 @@ impl ContinuityStore {
         actor_id: String,
         origin: String,
     ) -> Result<String, String> {
+        #[cfg(rip_verif)]
+        rip_kernel::verif::point("cont.before_lock");
         let mut next_seq = self.next_seq.lock().expect("continuity seq mutex");
+        #[cfg(rip_verif)]
+        rip_kernel::verif::point("cont.locked");
         let seq = match next_seq.get(continuity_id).cloned() {
             Some(seq) => seq,
             None => {
@@ -2995,10 +3037,18 @@ impl ContinuityStore {
         self.event_log
             .append(&event)
             .map_err(|err| format!("append continuity run spawned: {err}"))?;
+        #[cfg(rip_verif)]
+        rip_kernel::verif::point("cont.logged");
         self.stream_cache.append_best_effort(&event);
+        #[cfg(rip_verif)]
+        rip_kernel::verif::point("cont.sidecar");
         let _ = self.sender.send(event.clone());
+        #[cfg(rip_verif)]
+        rip_kernel::verif::point("cont.bcast");
 
         next_seq.insert(continuity_id.to_string(), seq + 1);
+        #[cfg(rip_verif)]
+        rip_kernel::verif::point("cont.advanced");
         Ok(id)
     }
 
@@ -3007,7 +3057,11 @@ impl ContinuityStore {
         continuity_id: &str,
         payload: ContextSelectionDecidedPayload,
     ) -> Result<String, String> {
+        #[cfg(rip_verif)]
+        rip_kernel::verif::point("cont.before_lock");
         let mut next_seq = self.next_seq.lock().expect("continuity seq mutex");
+        #[cfg(rip_verif)]
+        rip_kernel::verif::point("cont.locked");
         let seq = match next_seq.get(continuity_id).cloned() {
             Some(seq) => seq,
             None => {
@@ -3042,10 +3096,18 @@ impl ContinuityStore {
         self.event_log
             .append(&event)
             .map_err(|err| format!("append continuity context selection decided: {err}"))?;
+        #[cfg(rip_verif)]
+        rip_kernel::verif::point("cont.logged");
         self.stream_cache.append_best_effort(&event);
+        #[cfg(rip_verif)]
+        rip_kernel::verif::point("cont.sidecar");
         let _ = self.sender.send(event.clone());
+        #[cfg(rip_verif)]
+        rip_kernel::verif::point("cont.bcast");
 
         next_seq.insert(continuity_id.to_string(), seq + 1);
+        #[cfg(rip_verif)]
+        rip_kernel::verif::point("cont.advanced");
         Ok(id)
     }
 
@@ -3054,7 +3116,11 @@ impl ContinuityStore {
         continuity_id: &str,
         payload: ContextCompiledPayload,
     ) -> Result<String, String> {
+        #[cfg(rip_verif)]
+        rip_kernel::verif::point("cont.before_lock");
         let mut next_seq = self.next_seq.lock().expect("continuity seq mutex");
+        #[cfg(rip_verif)]
+        rip_kernel::verif::point("cont.locked");
         let seq = match next_seq.get(continuity_id).cloned() {
             Some(seq) => seq,
             None => {
@@ -3086,10 +3152,18 @@ impl ContinuityStore {
         self.event_log
             .append(&event)
             .map_err(|err| format!("append continuity context compiled: {err}"))?;
+        #[cfg(rip_verif)]
+        rip_kernel::verif::point("cont.logged");
         self.stream_cache.append_best_effort(&event);
+        #[cfg(rip_verif)]
+        rip_kernel::verif::point("cont.sidecar");
         let _ = self.sender.send(event.clone());
+        #[cfg(rip_verif)]
+        rip_kernel::verif::point("cont.bcast");
 
         next_seq.insert(continuity_id.to_string(), seq + 1);
+        #[cfg(rip_verif)]
+        rip_kernel::verif::point("cont.advanced");
         Ok(id)
     }
 
@@ -3098,7 +3172,11 @@ impl ContinuityStore {
         continuity_id: &str,
         payload: ProviderCursorUpdatedPayload,
     ) -> Result<String, String> {
+        #[cfg(rip_verif)]
+        rip_kernel::verif::point("cont.before_lock");
         let mut next_seq = self.next_seq.lock().expect("continuity seq mutex");
+        #[cfg(rip_verif)]
+        rip_kernel::verif::point("cont.locked");
         let seq = match next_seq.get(continuity_id).cloned() {
             Some(seq) => seq,
             None => {
@@ -3131,10 +3209,18 @@ impl ContinuityStore {
         self.event_log
             .append(&event)
             .map_err(|err| format!("append continuity provider cursor updated: {err}"))?;
+        #[cfg(rip_verif)]
+        rip_kernel::verif::point("cont.logged");
         self.stream_cache.append_best_effort(&event);
+        #[cfg(rip_verif)]
+        rip_kernel::verif::point("cont.sidecar");
         let _ = self.sender.send(event.clone());
+        #[cfg(rip_verif)]
+        rip_kernel::verif::point("cont.bcast");
 
         next_seq.insert(continuity_id.to_string(), seq + 1);
+        #[cfg(rip_verif)]
+        rip_kernel::verif::point("cont.advanced");
         Ok(id)
     }
 
@@ -3143,7 +3229,11 @@ impl ContinuityStore {
         continuity_id: &str,
         payload: CompactionCheckpointCreatedPayload,
     ) -> Result<String, String> {
+        #[cfg(rip_verif)]
+        rip_kernel::verif::point("cont.before_lock");
         let mut next_seq = self.next_seq.lock().expect("continuity seq mutex");
+        #[cfg(rip_verif)]
+        rip_kernel::verif::point("cont.locked");
         let seq = match next_seq.get(continuity_id).cloned() {
             Some(seq) => seq,
             None => {
@@ -3177,10 +3267,18 @@ impl ContinuityStore {
         self.event_log
             .append(&event)
             .map_err(|err| format!("append continuity compaction checkpoint: {err}"))?;
+        #[cfg(rip_verif)]
+        rip_kernel::verif::point("cont.logged");
         self.stream_cache.append_best_effort(&event);
+        #[cfg(rip_verif)]
+        rip_kernel::verif::point("cont.sidecar");
         let _ = self.sender.send(event.clone());
+        #[cfg(rip_verif)]
+        rip_kernel::verif::point("cont.bcast");
 
         next_seq.insert(continuity_id.to_string(), seq + 1);
+        #[cfg(rip_verif)]
+        rip_kernel::verif::point("cont.advanced");
         Ok(checkpoint_id)
     }
 
@@ -3189,7 +3287,11 @@ impl ContinuityStore {
         continuity_id: &str,
         payload: CompactionAutoScheduleDecidedPayload,
     ) -> Result<String, String> {
+        #[cfg(rip_verif)]
+        rip_kernel::verif::point("cont.before_lock");
         let mut next_seq = self.next_seq.lock().expect("continuity seq mutex");
+        #[cfg(rip_verif)]
+        rip_kernel::verif::point("cont.locked");
         let seq = match next_seq.get(continuity_id).cloned() {
             Some(seq) => seq,
             None => {
@@ -3228,10 +3330,18 @@ impl ContinuityStore {
         self.event_log
             .append(&event)
             .map_err(|err| format!("append continuity compaction schedule decided: {err}"))?;
+        #[cfg(rip_verif)]
+        rip_kernel::verif::point("cont.logged");
         self.stream_cache.append_best_effort(&event);
+        #[cfg(rip_verif)]
+        rip_kernel::verif::point("cont.sidecar");
         let _ = self.sender.send(event.clone());
+        #[cfg(rip_verif)]
+        rip_kernel::verif::point("cont.bcast");
 
         next_seq.insert(continuity_id.to_string(), seq + 1);
+        #[cfg(rip_verif)]
+        rip_kernel::verif::point("cont.advanced");
         Ok(id)
     }
 
@@ -3244,7 +3354,11 @@ impl ContinuityStore {
         actor_id: String,
         origin: String,
     ) -> Result<String, String> {
+        #[cfg(rip_verif)]
+        rip_kernel::verif::point("cont.before_lock");
         let mut next_seq = self.next_seq.lock().expect("continuity seq mutex");
+        #[cfg(rip_verif)]
+        rip_kernel::verif::point("cont.locked");
         let seq = match next_seq.get(continuity_id).cloned() {
             Some(seq) => seq,
             None => {
@@ -3273,10 +3387,18 @@ impl ContinuityStore {
         self.event_log
             .append(&event)
             .map_err(|err| format!("append continuity job spawned: {err}"))?;
+        #[cfg(rip_verif)]
+        rip_kernel::verif::point("cont.logged");
         self.stream_cache.append_best_effort(&event);
+        #[cfg(rip_verif)]
+        rip_kernel::verif::point("cont.sidecar");
         let _ = self.sender.send(event.clone());
+        #[cfg(rip_verif)]
+        rip_kernel::verif::point("cont.bcast");
 
         next_seq.insert(continuity_id.to_string(), seq + 1);
+        #[cfg(rip_verif)]
+        rip_kernel::verif::point("cont.advanced");
         Ok(id)
     }
 
@@ -3285,7 +3407,11 @@ impl ContinuityStore {
         continuity_id: &str,
         payload: JobEndedPayload,
     ) -> Result<String, String> {
+        #[cfg(rip_verif)]
+        rip_kernel::verif::point("cont.before_lock");
         let mut next_seq = self.next_seq.lock().expect("continuity seq mutex");
+        #[cfg(rip_verif)]
+        rip_kernel::verif::point("cont.locked");
         let seq = match next_seq.get(continuity_id).cloned() {
             Some(seq) => seq,
             None => {
@@ -3316,10 +3442,18 @@ impl ContinuityStore {
         self.event_log
             .append(&event)
             .map_err(|err| format!("append continuity job ended: {err}"))?;
+        #[cfg(rip_verif)]
+        rip_kernel::verif::point("cont.logged");
         self.stream_cache.append_best_effort(&event);
+        #[cfg(rip_verif)]
+        rip_kernel::verif::point("cont.sidecar");
         let _ = self.sender.send(event.clone());
+        #[cfg(rip_verif)]
+        rip_kernel::verif::point("cont.bcast");
 
         next_seq.insert(continuity_id.to_string(), seq + 1);
+        #[cfg(rip_verif)]
+        rip_kernel::verif::point("cont.advanced");
         Ok(id)
     }
 
@@ -3368,7 +3502,11 @@ impl ContinuityStore {
         actor_id: String,
         origin: String,
     ) -> Result<String, String> {
+        #[cfg(rip_verif)]
+        rip_kernel::verif::point("cont.before_lock");
         let mut next_seq = self.next_seq.lock().expect("continuity seq mutex");
+        #[cfg(rip_verif)]
+        rip_kernel::verif::point("cont.locked");
         let seq = match next_seq.get(continuity_id).cloned() {
             Some(seq) => seq,
             None => {
@@ -3397,10 +3535,18 @@ impl ContinuityStore {
         self.event_log
             .append(&event)
             .map_err(|err| format!("append continuity run ended: {err}"))?;
+        #[cfg(rip_verif)]
+        rip_kernel::verif::point("cont.logged");
         self.stream_cache.append_best_effort(&event);
+        #[cfg(rip_verif)]
+        rip_kernel::verif::point("cont.sidecar");
         let _ = self.sender.send(event.clone());
+        #[cfg(rip_verif)]
+        rip_kernel::verif::point("cont.bcast");
 
         next_seq.insert(continuity_id.to_string(), seq + 1);
+        #[cfg(rip_verif)]
+        rip_kernel::verif::point("cont.advanced");
         Ok(id)
     }
 
@@ -3411,7 +3557,11 @@ impl ContinuityStore {
         effects: ToolSideEffects,
     ) -> Result<String, String> {
         let continuity_id = run.continuity_id.as_str();
+        #[cfg(rip_verif)]
+        rip_kernel::verif::point("cont.before_lock");
         let mut next_seq = self.next_seq.lock().expect("continuity seq mutex");
+        #[cfg(rip_verif)]
+        rip_kernel::verif::point("cont.locked");
         let seq = match next_seq.get(continuity_id).cloned() {
             Some(seq) => seq,
             None => {
@@ -3442,10 +3592,18 @@ impl ContinuityStore {
         self.event_log
             .append(&event)
             .map_err(|err| format!("append continuity tool side effects: {err}"))?;
+        #[cfg(rip_verif)]
+        rip_kernel::verif::point("cont.logged");
         self.stream_cache.append_best_effort(&event);
+        #[cfg(rip_verif)]
+        rip_kernel::verif::point("cont.sidecar");
         let _ = self.sender.send(event.clone());
+        #[cfg(rip_verif)]
+        rip_kernel::verif::point("cont.bcast");
 
         next_seq.insert(continuity_id.to_string(), seq + 1);
+        #[cfg(rip_verif)]
+        rip_kernel::verif::point("cont.advanced");
         Ok(id)
     }
 
@@ -3505,8 +3663,14 @@ impl ContinuityStore {
         self.event_log
             .append(&created)
             .map_err(|err| format!("append continuity_created: {err}"))?;
+        #[cfg(rip_verif)]
+        rip_kernel::verif::point("cont.logged");
         self.stream_cache.append_best_effort(&created);
+        #[cfg(rip_verif)]
+        rip_kernel::verif::point("cont.sidecar");
         let _ = self.sender.send(created.clone());
+        #[cfg(rip_verif)]
+        rip_kernel::verif::point("cont.bcast");
 
         {
             let mut index = self.index.lock().expect("continuity index mutex");
@@ -3524,11 +3688,17 @@ impl ContinuityStore {
             save_index(&index_path(&self.data_dir), &index)
                 .map_err(|err| format!("save continuity index: {err}"))?;
         }
+        #[cfg(rip_verif)]
+        rip_kernel::verif::point("cont.index_saved");
 
+        #[cfg(rip_verif)]
+        rip_kernel::verif::point("cont.before_setnext");
         self.next_seq
             .lock()
             .expect("continuity seq mutex")
             .insert(continuity_id.clone(), 1);
+        #[cfg(rip_verif)]
+        rip_kernel::verif::point("cont.setnext");
 
         Ok(continuity_id)
     }
